@@ -29,9 +29,24 @@ RULE = ("providers with 3 clients whose registrations draw subject_type from {ab
         "with a salt file that does not exist at first start; one file shared by two entries; salt and file both given; the session "
         "salt through the library's functions; nothing configured; session state handed over by dump / load; a directory in place of "
         "the file) three provider instances are built one after another from the same configuration; the same users log in at the "
-        "same clients at every instance (all release points), the files are looked at before and after every start-up.")
+        "same clients at every instance (all release points), the files are looked at before and after every start-up. "
+        "WHAT A REQUEST SAYS: on providers with built-in minters (opaque / JWT access tokens), the documented PublicID / PairWiseID "
+        "configuration and a drawn configuration, with public / pairwise / ephemeral clients registered with sector_id, "
+        "sector_identifier_uri, no sector (redirect host) and a sector without a host: after plain logins of every user at every client "
+        "(the reference subs), logins whose requests carry EXTENSION parameters named like registration metadata or like inputs of the "
+        "subject computation (sector_identifier_uri / sector_id / sector_identifier with the registered value, its host, the sector "
+        "and sector host of each other registered client, an attacker's URL and host, empty; subject_type / sub_type; redirect_uris; "
+        "client_salt / salt (registered, other, empty); sub (own, another client's, another user's, chosen); sub_func; user_id / uid / "
+        "user; client_id of another client; claims.id_token|userinfo.sub.value|values matching and not matching), one at a time - every "
+        "parameter x value x place exhaustively at one pairwise client, sampled with every name and place covered at the others - and "
+        "several at once, delivered on the front channel, in a signed request object, as a pushed request, with the session cookie of an "
+        "earlier login, twice in one query string, in the code redemption and in the refresh request; the sub is read at the grant, "
+        "ID Token, userinfo, introspection and (JWT) access token, before and after a refresh.")
 ASSUMPTIONS = ["SHA-256 is collision free (hypothesis H_inj of the pairwise theorem)", "urlparse(..).hostname is an environment function; "
-               "its values are taken from urllib for the sector sources that occur", "uuid4 values are fresh"]
+               "its values are taken from urllib for the sector sources that occur", "uuid4 values are fresh",
+               "request content: the reference sub of (user, client) is the sub of a plain login at the same provider; a client "
+               "registration whose sector has NO host for urlparse (bare host name, URN) has the empty sector (its pairwise sub equals "
+               "the sector-less hash) - the request is judged irrelevant there as everywhere else"]
 
 SECTORS = [None, "https://sector-a.example.org/uris.json", "https://sector-b.example.org/uris.json",
            "https://SECTOR-A.example.org:8443/x", "https://user@sector-b.example.org/y"]
@@ -299,10 +314,11 @@ def other_providers(ctx, cases):
                 r.close()
 
 
-def configured_session(spec, **kw):
+def configured_session(spec, cls=None, **kw):
     """a RealSession whose provider is configured with session_params.sub_func = the dict `spec` describes (None: key absent)"""
+    cls = cls or sess.RealSession
     if spec is None:
-        return sess.RealSession(**kw)
+        return cls(**kw)
     old_mk = srv.make_server
 
     def mk(*a, **k):
@@ -310,7 +326,7 @@ def configured_session(spec, **kw):
         return old_mk(*a, **k)
     srv.make_server = mk
     try:
-        return sess.RealSession(**kw)
+        return cls(**kw)
     finally:
         srv.make_server = old_mk
 
@@ -794,6 +810,474 @@ def configured_providers(ctx, cases):
     ctx.coq_check_cases(imports, "list (pystr * centry) * list pystr", "chk_table_keys", kcases, label="tablekeys")
 
 
+# =====================================================================================================================
+# WHAT A REQUEST SAYS.  The sub of a grant is a function of (user, the client's REGISTERED subject type and sector / redirect
+# host, the provider's salt / configured minter) - for every content of the request.  Requests carrying EXTENSION parameters
+# named like client-registration metadata or like inputs of the subject computation, with values equal to / different from
+# what is registered (the sector of ANOTHER registered client, an attacker-chosen URL, ...), delivered every way a request
+# reaches the provider: front channel, request object, pushed request, with a session cookie, duplicated in the query string,
+# and at the token endpoint (code redemption, refresh).  The one place where OIDC lets a request mention sub
+# (claims: {"id_token": {"sub": {"value": ..}}}) asks for a MATCH; it never sets the sub.
+# =====================================================================================================================
+class QuickSession(sess.RealSession):
+    """RealSession with the inventory of grants / tokens taken incrementally (hundreds of logins on one provider)"""
+
+    def harvest(self):
+        ids = self.__dict__.setdefault("_tok_ids", set())
+        marks = self.__dict__.setdefault("_grant_marks", {})
+        if len(ids) != len(self.tokobj):
+            ids.clear()
+            ids.update(id(o) for o in self.tokobj)
+            marks.clear()
+        new = []
+        for gi, (sid, g, u, c) in enumerate(self.grants):
+            it = g.issued_token
+            mark = (len(it), id(it[-1]) if it else 0)
+            if marks.get(gi) == mark:
+                continue
+            marks[gi] = mark
+            for t in it:
+                if id(t) not in ids:
+                    ids.add(id(t))
+                    self.tokobj.append(t)
+                    self.tokens.append(t.value)
+                    self.tok_grant.append(gi)
+                    new.append(len(self.tokens) - 1)
+        return new
+
+    def find_new_grants(self):
+        from idpyoidc.server.session.grant import Grant
+        known = self.__dict__.setdefault("_grant_ids", set())
+        if len(known) != len(self.grants):
+            known.clear()
+            known.update(id(g) for _, g, _, _ in self.grants)
+        for k, n in self.sm.db.items():
+            if isinstance(n, Grant) and id(n) not in known:
+                if len(k.split(";;")) != 3:
+                    continue
+                u, c, gid = k.split(";;")
+                known.add(id(n))
+                self.grants.append((self.sm.encrypted_session_id(u, c, gid), n, u, c))
+
+
+ATTACKER_URL = "https://attacker.example.net/sector.json"
+ATTACKER_HOST = "attacker.example.net"
+RQ_SCOPE = ["openid", "email", "offline_access"]
+AUTHZ_WHERES = ["front", "request-object", "par", "cookie", "query-duplicates"]
+TOKEN_WHERES = ["token", "refresh"]
+WHERES = AUTHZ_WHERES + TOKEN_WHERES
+# registered sectors for which urlparse finds NO host (a bare host name, a URN): Authorization._subject_args hands "" on, the
+# minter gets the empty sector - for every content of the request
+HOSTLESS_SECTORS = ["sector-a.example.org", "urn:sector:b"]
+
+
+def redirect_of(c):
+    return "https://%s.example.com/cb" % c
+
+
+def reg_sector_source(reg, c):
+    """ground truth from the REGISTRATION: the text whose host names the client's sector"""
+    return reg.get("sector_id") or reg.get("sector_identifier_uri") or redirect_of(c)
+
+
+def wire(v):
+    """an extension parameter's value as text (what the model's request holds; what a form-encoded body carries)"""
+    return v if isinstance(v, str) else json.dumps(v, sort_keys=True)
+
+
+def ext_catalogue(rs, u, c, refs):
+    """every single extension parameter the class asks for, for a login of u at c: [(name, value, relation to what is registered)]"""
+    cdb = rs.ctx.cdb
+    reg = cdb[c]
+    others = [o for o in sess.CLIENTS if o != c]
+    other_user = next(x for x in sess.USERS if x != u)
+    own = reg_sector_source(reg, c)
+    sect = [(own, "registered"), (host(own) or "none.example.org", "registered-host")]
+    for o in others:
+        src = reg_sector_source(cdb[o], o)
+        sect += [(src, "of-" + o), (host(src) or src, "host-of-" + o)]
+    sect += [(ATTACKER_URL, "attacker"), (ATTACKER_HOST, "attacker-host"), ("", "empty")]
+    out, had = [], set()
+    for name in ("sector_identifier_uri", "sector_id", "sector_identifier"):
+        for v, rel in sect:
+            if (name, v) not in had:
+                had.add((name, v))
+                out.append((name, v, rel))
+    st = reg.get("subject_type") or "public"
+    for name in ("subject_type", "sub_type"):
+        for v in ("public", "pairwise", "ephemeral", "transient"):
+            out.append((name, v, "registered" if v == st else "other"))
+    out.append(("redirect_uris", [redirect_of(c)], "registered"))
+    out.append(("redirect_uris", [redirect_of(others[0]), "https://attacker.example.net/cb"], "other"))
+    out += [("client_salt", reg.get("client_salt") or "salted", "registered"), ("client_salt", "other-salt", "other"),
+            ("salt", "%s" % (rs.sm.get_salt(),), "registered"), ("salt", "other-salt", "other"), ("salt", "", "empty")]
+    subs = [(refs.get((u, c)), "registered")] + [(refs.get((u, o)), "of-" + o) for o in others] + \
+           [(refs.get((other_user, c)), "of-user-" + other_user), ("chosen-subject-0001", "attacker")]
+    subs = [(v, rel) for v, rel in subs if v]
+    out += [("sub", v, rel) for v, rel in subs]
+    out += [("sub_func", "public", "other"), ("sub_func", {"pairwise": {"function": "idpyoidc.server.session.manager.public_id"}}, "other")]
+    for name in ("user_id", "uid", "user"):
+        out += [(name, u, "registered"), (name, other_user, "other")]
+    out.append(("client_id", others[0], "of-" + others[0]))
+    for member in ("id_token", "userinfo"):
+        for v, rel in subs:
+            out.append(("claims", {member: {"sub": {"value": v}}}, rel))
+    out.append(("claims", {"id_token": {"sub": {"values": [v for v, _ in subs[1:]]}}, "userinfo": {"sub": None}}, "other"))
+    return out
+
+
+def _basic(rs, c):
+    return {"headers": {"authorization": "Basic " + base64.b64encode(("%s:%s" % (c, rs.secret(c))).encode()).decode()}}
+
+
+def request_flow(rs, u, c, where, ext, jwt, n):
+    """one login of user u at client c through the real endpoints, the extension parameters `ext` delivered at `where`.
+    Returns (status, grant index, views): status "ok" | "refused:<stage>:<what>"; views = the sub at every release point,
+    before and after a refresh"""
+    from urllib.parse import urlencode
+    from cryptojwt.jws.jws import JWS
+    from cryptojwt.jwk.hmac import SYMKey
+    base = {"client_id": c, "redirect_uri": redirect_of(c), "response_type": "code", "scope": " ".join(RQ_SCOPE),
+            "state": "st-%d" % n, "nonce": "nonce-rq-%d" % n, "prompt": "consent"}
+    cookie = None
+    g0 = len(rs.grants)
+    if where == "front":
+        extra = dict(base, **{k: v for k, v in ext.items() if k != "client_id"})
+    elif where == "request-object":
+        claims = dict(base, iss=c, aud=srv.ISSUER)
+        claims.update(ext)
+        extra = dict(base, request=JWS(json.dumps(claims), alg="HS256").sign_compact([SYMKey(key=rs.secret(c))]))
+    elif where == "par":
+        par = rs.server.get_endpoint("pushed_authorization")
+        body = dict(base)
+        body.update({k: wire(v) if k != "claims" else v for k, v in ext.items()})
+        try:
+            srv.set_user(rs.server, u)
+            p = par.parse_request(body, http_info=_basic(rs, c))
+            e = rs.err_of(p)
+            if e:
+                return "refused:par:%s" % e, None, None
+            urn = par.process_request(p)["http_response"]["request_uri"]
+        except Exception as ex:
+            return "refused:par:%s" % type(ex).__name__, None, None
+        extra = dict(base, request_uri=urn)
+    elif where == "cookie":
+        o1 = rs.run(("authz", u, c, RQ_SCOPE, "code", dict(base)))
+        cookie = rs.last_cookie
+        if o1[0] != "ok" or not cookie:
+            return "refused:first-login:%r" % (o1[:2],), None, None
+        g0 = len(rs.grants)
+        extra = dict(base, state="st-%d-b" % n, nonce="nonce-rq-%d-b" % n, **{k: v for k, v in ext.items() if k != "client_id"})
+    elif where == "query-duplicates":
+        # the query string carries the registered / plain member AND a second one of the same name
+        pairs = list(base.items())
+        for k, v in ext.items():
+            pairs.append((k, wire(v)))
+            if k not in base:
+                pairs.append((k, wire(v) + "-second" if k != "sector_identifier_uri" else host(reg_sector_source(rs.ctx.cdb[c], c))))
+        extra = urlencode(pairs)
+    else:
+        extra = dict(base)
+    if isinstance(extra, str):
+        try:
+            srv.set_user(rs.server, u)
+            ep = rs.ep["authorization"]
+            pq = ep.parse_request(extra)
+            e = rs.err_of(pq)
+            if e:
+                return "refused:authorization:%s" % e, None, None
+            res = ep.process_request(pq)
+            ra = res.get("response_args") if isinstance(res, dict) else None
+            o = ["ok"] if ra is not None and "code" in ra else ["err", rs.err_of(ra) if ra is not None else "no-response"]
+        except Exception as ex:
+            o = ["exc", type(ex).__name__]
+        finally:
+            rs.find_new_grants()
+            rs.harvest()
+    else:
+        o = rs.run(("authz", u, c, RQ_SCOPE, "code", extra, cookie))
+    if o[0] != "ok":
+        return "refused:authorization:%s" % (o[1] if len(o) > 1 else o[0]), None, None
+    new = [gi for gi in range(g0, len(rs.grants))]
+    if where == "cookie" and not new:
+        return "refused:authorization:same-grant", None, None
+    if len(new) != 1:
+        return "refused:authorization:%d-grants" % len(new), None, None
+    gi = new[0]
+    g = rs.grants[gi][1]
+    code = next((i for i, t in enumerate(rs.tokobj) if rs.tok_grant[i] == gi and t.token_class == "authorization_code"), None)
+    if code is None:
+        return "refused:authorization:no-code", gi, None
+    gc = rs.grants[gi][3]          # the client the grant belongs to (session database path)
+    views = {"grant": g.sub}
+    body = {"grant_type": "authorization_code", "code": rs.tokens[code], "redirect_uri": redirect_of(gc)}
+    if where == "token":
+        body.update({k: wire(v) for k, v in ext.items() if k != "client_id"})
+    try:
+        if where == "token" and "client_id" in ext:      # credentials of the grant's client (Basic), the body names another client
+            p = rs.ep["token"].parse_request(dict(body, client_id=ext["client_id"]), http_info=_basic(rs, gc))
+        else:
+            p = rs.ep["token"].parse_request(rs._token_req(gc, body))
+    except Exception as ex:
+        return "refused:token:%s" % type(ex).__name__, gi, views
+    if rs.err_of(p):
+        return "refused:token:%s" % rs.err_of(p), gi, views
+    rs.parsed.append(p)
+    pr = rs.run(("proc", len(rs.parsed) - 1, None))
+    if pr[0] != "ok":
+        return "refused:token:%s" % (pr[1] if len(pr) > 1 else pr[0]), gi, views
+
+    def release_points(out, tag):
+        if "id_token" in out and out["id_token"] >= 0:
+            views[tag + "id_token"] = jwt_payload(rs.tokens[out["id_token"]])["sub"]
+        at = out["access_token"]
+        ui = rs.run(("userinfo", ("tok", at)))
+        views[tag + "userinfo"] = ui[1] if ui[0] == "ok" else None
+        it = rs.run(("introspect", gc, ("tok", at)))
+        views[tag + "introspection"] = it[3] if it[0] == "active" else None
+        if jwt:
+            views[tag + "jwt_access_token"] = jwt_payload(rs.tokens[at]).get("sub")
+    release_points(pr[1], "")
+    if "refresh_token" not in pr[1]:
+        return "ok", gi, views
+    body = {"grant_type": "refresh_token", "refresh_token": rs.tokens[pr[1]["refresh_token"]], "scope": "openid email"}
+    if where == "refresh":
+        body.update({k: wire(v) for k, v in ext.items() if k != "client_id"})
+    try:
+        if where == "refresh" and "client_id" in ext:
+            p = rs.ep["token"].parse_request(dict(body, client_id=ext["client_id"]), http_info=_basic(rs, gc))
+        else:
+            p = rs.ep["token"].parse_request(rs._token_req(gc, body))
+    except Exception as ex:
+        return "refused:refresh:%s" % type(ex).__name__, gi, views
+    if rs.err_of(p):
+        return "refused:refresh:%s" % rs.err_of(p), gi, views
+    rs.parsed.append(p)
+    pr = rs.run(("proc", len(rs.parsed) - 1, None))
+    if pr[0] != "ok":
+        return "refused:refresh:%s" % (pr[1] if len(pr) > 1 else pr[0]), gi, views
+    release_points(pr[1], "refreshed_")
+    return "ok", gi, views
+
+
+def named_subs(ext):
+    """the sub values a request names (a `sub` member; the one legal place: claims.<member>.sub.value / values)"""
+    out = set()
+    if isinstance(ext.get("sub"), str):
+        out.add(ext["sub"])
+    cl = ext.get("claims")
+    if isinstance(cl, dict):
+        for member in cl.values():
+            s = (member or {}).get("sub") if isinstance(member, dict) else None
+            if isinstance(s, dict):
+                if isinstance(s.get("value"), str):
+                    out.add(s["value"])
+                out.update(x for x in (s.get("values") or []) if isinstance(x, str))
+    return out
+
+
+def request_provider(ctx, pi, jwt, over, spec, rcases, budget):
+    """one provider; plain logins of every user at every client give the reference subs; then logins whose requests carry the
+    extension parameters.  ORACLE (from the property text; the ground truth is the REGISTRATION the generator wrote and the plain
+    login): the sub of a grant of user u in client c's part of the session database equals the sub of a plain login of u at c
+    (public / pairwise; at every release point, before and after a refresh), differs from the sub of every client in another
+    sector, is fresh and not a value the request named when c is ephemeral; a claims.sub.value that does not match yields a
+    refusal or is ignored."""
+    rng = ctx.rng
+    rs = configured_session(spec, cls=QuickSession, oidc=True, jwt_access=jwt, client_over=copy.deepcopy(over))
+    try:
+        salt = rs.sm.get_salt()
+        cdb = rs.ctx.cdb
+        typ = {c: cdb[c].get("subject_type") or "public" for c in sess.CLIENTS}
+        fresh = {c: cm.effective_recipe(spec or [], typ[c]) is None for c in sess.CLIENTS}
+        sector = {c: host(reg_sector_source(cdb[c], c)) for c in sess.CLIENTS}
+        refs, eph_seen, n = {}, set(), [0]
+        desc = {"provider": pi, "jwt_access": jwt, "sub_func": cm.describe(spec) if spec else None,
+                "registrations": {c: {k: cdb[c].get(k) for k in ("subject_type", "sector_id", "sector_identifier_uri")} for c in sess.CLIENTS}}
+
+        def one(u, c, where, ext, rel):
+            n[0] += 1
+            status, gi, views = request_flow(rs, u, c, where, ext, jwt, n[0])
+            names = sorted(ext)
+            rec = dict(desc, user=u, client=c, where=where, extension_parameters={k: ext[k] for k in names}, relation=rel,
+                       status=status, views=views)
+            answered = status == "ok" and views is not None and all(v is not None for v in views.values())
+            ctx.case_seen(rec, answered)
+            ctx.count("request:%s:%s" % (where, "answered" if answered else status.split(":")[0] + ":" + status.split(":")[1]))
+            if views is None or gi is None:
+                return None
+            gu, gc = rs.grants[gi][2], rs.grants[gi][3]
+            rec["grant_of"] = [gu, gc]
+            for k in names:
+                ctx.count("request-param:%s:%s" % (k, typ[gc]))
+            sub = views["grant"]
+            if len(set(v for v in views.values() if v is not None)) != 1:
+                ctx.violation("inconsistent-views", "sub differs across release points: %r" % views, rec)
+            at_authz = where in AUTHZ_WHERES
+            if sector[gc] == "":
+                ctx.count("request:hostless-registered-sector:%s" % where)
+            if fresh[gc]:
+                hashed = set(v for v in refs.values())
+                if sub in eph_seen or sub in hashed or sub in named_subs(ext) or any(sub == wire(v) for v in ext.values()):
+                    ctx.violation("request-fixes-ephemeral-sub", "the grant of %s at ephemeral client %s got sub %s: not a fresh value "
+                                  "(request carried %r at %s)" % (gu, gc, sub, ext, where), rec)
+                eph_seen.add(sub)
+            elif (gu, gc) in refs:
+                want = refs[(gu, gc)]
+                for v in views.values():
+                    if v is None or v == want:
+                        continue
+                    # (also for a registration whose sector has no host: the sub is computed with the empty sector, whatever the
+                    #  request says - repaired in /repo c7c9b10, create_grant fell back on the request's sector_identifier_uri member)
+                    what = "request-changes-sub"
+                    other = [o for o in sess.CLIENTS if o != gc and refs.get((gu, o)) == v and not fresh[o]]
+                    if other:
+                        what += ":sub-of-%s-client-in-another-sector" % typ[other[0]] if sector[other[0]] != sector[gc] or typ[other[0]] != typ[gc] \
+                            else ":sub-of-other-client"
+                    elif v in named_subs(ext):
+                        what += ":value-the-request-named"
+                    ctx.violation(what, "user %s at client %s (registered %s, sector %s): a plain request gets sub %s, the request carrying %r "
+                                  "(%s) gets %s" % (gu, gc, typ[gc], sector[gc] or "<none>", want, ext, where, v), rec)
+                    break
+                if u in sub:
+                    ctx.violation("uid-in-clear", "sub %r contains the user id %r" % (sub, u), rec)
+            # ---- model case: the assembled authorization request (what the harness SENT), the registration, the sub
+            members = [(k, wire(ext[k])) for k in names if k != "client_id"] if at_authz and where != "query-duplicates" else []
+            if where == "query-duplicates" and at_authz:
+                return sub      # (a member given twice has no single value in the model's request)
+            reg = cdb[gc]
+            rd = redirect_of(gc)
+            srcs = [x for x in (reg.get("sector_id"), reg.get("sector_identifier_uri"), rd) if x]
+            hosts = [(x, host(x)) for x in srcs]
+            sectors = [h for _, h in hosts] + [v for k, v in members if k == "sector_identifier_uri"]
+            pre = cm.preimages(spec or [], gu, salt, sectors)
+            ht = [(x, hashlib.sha256(x.encode("utf-8")).hexdigest()) for x in pre]
+            rcases.append(("(%s, %s, %s, mkCreg %s %s %s, mkAreq %s %s, %s, %s, %s)" % (
+                cs.coq_pairs(ht), cs.coq_pairs(hosts), cm.coq_conf(spec or []),
+                coq_opt(reg.get("subject_type"), cs.S, "pystr"), coq_opt(reg.get("sector_id"), cs.S, "pystr"),
+                coq_opt(reg.get("sector_identifier_uri"), cs.S, "pystr"),
+                cs.S(rd), cs.coq_pairs(members), cs.S(gu), cs.S("%s" % (salt,)),
+                "None" if fresh[gc] else "(Some %s)" % cs.S(sub)), rec))
+            return sub
+
+        # ---- reference: plain requests (twice: the second through the cookie-less front channel again)
+        for u in sess.USERS:
+            for c in sess.CLIENTS:
+                for rep in range(2):
+                    n[0] += 1
+                    status, gi, views = request_flow(rs, u, c, "front", {}, jwt, n[0])
+                    if status != "ok":
+                        ctx.notes.append("request-content: plain login failed (%s)" % status)
+                        continue
+                    rec = dict(desc, user=u, client=c, where="plain", views=views)
+                    ctx.case_seen(rec, all(v is not None for v in views.values()))
+                    if len(set(views.values())) != 1:
+                        ctx.violation("inconsistent-views", "sub differs across release points: %r" % views, rec)
+                    if fresh[c]:
+                        if views["grant"] in eph_seen:
+                            ctx.violation("ephemeral-repeat", "ephemeral subs repeat: %s" % views["grant"], rec)
+                        eph_seen.add(views["grant"])
+                    elif refs.setdefault((u, c), views["grant"]) != views["grant"]:
+                        ctx.violation("unstable", "user %s at %s (%s) got different subs over two plain logins" % (u, c, typ[c]), rec)
+        for u in sess.USERS:
+            for a in sess.CLIENTS:
+                for b in sess.CLIENTS:
+                    if a < b and (u, a) in refs and (u, b) in refs and typ[a] == typ[b] == "pairwise" and sector[a] != sector[b] \
+                            and refs[(u, a)] == refs[(u, b)]:
+                        ctx.violation("pairwise-sectors-equal", "pairwise subs equal across sectors %s / %s" % (sector[a], sector[b]),
+                                      dict(desc, user=u, clients=[a, b]))
+        # ---- single-parameter matrix: every parameter x value x place, at every client (the first user; exhaustive for the
+        #      first `budget["full"]` clients of this provider, sampled for the others), then several parameters at once
+        order = sorted(sess.CLIENTS, key=lambda c: {"pairwise": 0, "ephemeral": 1, "public": 2}[typ[c]])
+        for ci, c in enumerate(order):
+            u = sess.USERS[(pi + ci) % len(sess.USERS)]
+            cat = ext_catalogue(rs, u, c, refs)
+            combos = [(where, name, v, rel) for name, v, rel in cat for where in WHERES
+                      if not (name == "client_id" and where in ("front", "cookie"))]
+            if ci >= budget["full"]:
+                # every parameter name and every place stay covered; the values are drawn
+                rng.shuffle(combos)
+                keep, hw, hn = [], set(), set()
+                for x in combos:
+                    if x[0] not in hw or x[1] not in hn or len(keep) < budget["sample"]:
+                        hw.add(x[0])
+                        hn.add(x[1])
+                        keep.append(x)
+                combos = keep
+            for where, name, v, rel in combos:
+                one(u, c, where, {name: v}, rel)
+            for _ in range(budget["multi"]):
+                u2 = rng.choice(sess.USERS)
+                cat2 = cat if u2 == u else ext_catalogue(rs, u2, c, refs)
+                ext = {}
+                for name, v, rel in rng.sample(cat2, rng.randint(2, 5)):
+                    ext.setdefault(name, v)
+                where = rng.choice(WHERES)
+                if where in ("front", "cookie"):
+                    ext.pop("client_id", None)
+                if ext:
+                    one(u2, c, where, ext, "several")
+    finally:
+        rs.close()
+
+
+def request_content(ctx):
+    """the request-content family over the provider variants of this driver: built-in minters (opaque / JWT access tokens),
+    the documented PublicID / PairWiseID configuration, a drawn configuration; registrations with sector_id /
+    sector_identifier_uri / no registered sector (redirect host), public / pairwise / ephemeral clients; and registrations whose
+    sector has NO host"""
+    rng = ctx.rng
+    documented = [("public", {"how": "class-str", "kind": ("PublicID", OWN_SALTS[0])}),
+                  ("pairwise", {"how": "class-str", "kind": ("PairWiseID", OWN_SALTS[1])})]
+    provs = [
+        # (jwt, registrations, configured minters, budget)
+        (True, {"client_1": {"subject_type": "pairwise", "sector_identifier_uri": SECTORS[1]},
+                "client_2": {"subject_type": "pairwise", "sector_id": SECTORS[2]},
+                "client_12": {"subject_type": "pairwise"}}, None, {"full": 1, "sample": 40, "multi": 12}),
+        (False, {"client_1": {"subject_type": "ephemeral"},
+                 "client_2": {"subject_type": "pairwise", "sector_identifier_uri": SECTORS[4]},
+                 "client_12": {}}, None, {"full": 0, "sample": 60, "multi": 10}),
+        (False, {"client_1": {"subject_type": "pairwise", "sector_id": SECTORS[3]},
+                 "client_2": {"subject_type": "public", "sector_identifier_uri": SECTORS[2]},
+                 "client_12": {"subject_type": "pairwise", "sector_identifier_uri": SECTORS[2]}}, documented, {"full": 0, "sample": 60, "multi": 10}),
+        (True, {"client_1": {"subject_type": "pairwise"},
+                "client_2": {"subject_type": "ephemeral", "sector_id": SECTORS[1]},
+                "client_12": {"subject_type": "pairwise", "sector_id": SECTORS[1]}},
+         draw_spec(rng, rng.choice([("pairwise",), ("pairwise", "public"), ("public", "pairwise", "ephemeral")])),
+         {"full": 0, "sample": 40, "multi": 8}),
+        # registrations whose sector has no host
+        (False, {"client_1": {"subject_type": "pairwise", "sector_id": HOSTLESS_SECTORS[0]},
+                 "client_2": {"subject_type": "pairwise", "sector_identifier_uri": SECTORS[2]},
+                 "client_12": {"subject_type": "pairwise", "sector_identifier_uri": HOSTLESS_SECTORS[1]}}, None,
+         {"full": 1, "sample": 30, "multi": 6}),
+    ]
+    if not ctx.quick:
+        for k in range(12):
+            types = list(TYPE_PATTERNS[k % len(TYPE_PATTERNS)])
+            rng.shuffle(types)
+            over = {}
+            for c, st in zip(sess.CLIENTS, types):
+                rec = {"subject_type": st} if st else {}
+                sec = rng.choice(SECTORS + HOSTLESS_SECTORS[:1])
+                if sec:
+                    rec[rng.choice(["sector_id", "sector_identifier_uri"])] = sec
+                over[c] = rec
+            spec = None if k % 3 == 0 else draw_spec(rng, rng.choice([o for m in (1, 2, 3) for o in itertools.permutations(STD_KEYS, m)]))
+            provs.append((k % 2 == 0, over, spec, {"full": 3, "sample": 0, "multi": 40}))
+    rcases = []
+    import logging
+    lg = logging.getLogger("idpyoidc.message.oauth2")      # (a request object restating front channel members: one warning each)
+    lvl = lg.level
+    lg.setLevel(logging.ERROR)
+    try:
+        for pi, (jwt, over, spec, budget) in enumerate(provs):
+            ctx.count("request-content:providers")
+            request_provider(ctx, pi, jwt, over, spec, rcases, budget)
+    finally:
+        lg.setLevel(lvl)
+    cs.check_cases(ctx, ["Lib.Base", "Lib.PyStr", "Model.Sub"], "rsub_case", "chk_rsub", rcases, shard=150, label="rsub")
+
+
 def run(ctx):
     rng = ctx.rng
     source_tie(ctx)
@@ -821,6 +1305,7 @@ def run(ctx):
     other_providers(ctx, cases)
     configured_providers(ctx, cases)
     salt_lifecycle(ctx)
+    request_content(ctx)
     ctx.coq_check_cases(["Lib.Base", "Lib.PyStr", "Model.Sub"], "sub_case", "chk_sub", cases, shard=60, label="sub")
 
 
